@@ -30,6 +30,10 @@ EVD = {"ev": "", "id": 0, "caught": False, "cc": False, "exc": "", "t": 0}
 # programs: AST = list of statements
 #   ("sleep", d) ("mark", k) ("cancel", scope_id) ("resched", scope_id, d) ("scope", id, kind, d, body) ("shield", body)
 #   ("cyield",) = backend.cancel_shielded_coro_yield(): a bare checkpoint run with cancellation muted, i.e. shield{sleep(0)}
+#   ("scope", id, kind, d, body, "raises") = the body ends by raising ValueError, caught just outside the scope
+#   ("failwait", d) = ignore_cancellation(wait d ticks for a future that then fails with ConnectionResetError), the error caught around it
+#   ("startc", id, k, n) = scope id .cancel() is called from a callback n loop iterations from now; meanwhile a task group starts a child
+#                          with TaskGroup.start() (the child marks k and returns at once); three bare checkpoints follow
 #   ("join", k, d) = a task group whose only child sleeps d ticks and then marks k; the parent waits at the end of the group
 
 
@@ -39,7 +43,7 @@ def flatten(ast: list[Any]) -> list[dict[str, Any]]:
     def ins(op: str, id_: int = 0, kind: str = "", d: int = 0) -> None:
         out.append({"op": op, "id": id_, "kind": kind, "d": d})
 
-    def go(block: list[Any]) -> None:
+    def go(block: list[Any], in_shield: bool = False) -> None:
         for st in block:
             if st[0] == "sleep":
                 ins("sleep", d=st[1])
@@ -51,11 +55,15 @@ def flatten(ast: list[Any]) -> list[dict[str, Any]]:
                 ins("resched", st[1], d=st[2])
             elif st[0] == "scope":
                 ins("enter", st[1], st[2], st[3])
-                go(st[4])
-                ins("exit", st[1])
+                go(st[4], in_shield)
+                ins("exit", st[1], "raises" if len(st) > 5 else "")
+            elif st[0] == "failwait":
+                ins("shin")
+                ins("sleep", d=st[1])
+                ins("shout")
             elif st[0] == "shield":
                 ins("shin")
-                go(st[1])
+                go(st[1], True)
                 ins("shout")
             elif st[0] == "cyield":
                 ins("shin")
@@ -63,6 +71,18 @@ def flatten(ast: list[Any]) -> list[dict[str, Any]]:
                 ins("shout")
             elif st[0] == "join":
                 ins("join", st[1], d=st[2])
+            elif st[0] == "startc":
+                if st[3] <= 1 and not in_shield:
+                    # the cancellation reaches the task while it is suspended in start(): start() must not return
+                    ins("startc", st[1], d=st[2])
+                else:
+                    # it comes after start() has returned (or cannot be delivered there: shielded): the statement after start() runs,
+                    # then the next checkpoint abandons the body
+                    ins("startq", st[2], d=st[1])
+                    ins("mark", st[2] + 500)
+                    ins("cancelq", st[1])
+                    for _ in range(3):
+                        ins("sleep", d=0)
 
     go(ast)
     return out
@@ -80,6 +100,10 @@ def gen_program(rng: random.Random, max_depth: int = 3) -> list[Any]:
                 out.append(("cyield",))
             elif r < 0.12:
                 out.append(("join", next(marks), rng.choice([1, 1, 2, 3, 5])))
+            elif r < 0.16 and not in_shield:
+                out.append(("failwait", rng.choice([1, 1, 2, 3])))
+            elif r < 0.20 and active:
+                out.append(("startc", rng.choice(active), next(marks), rng.choice([0, 1, 1, 2, 3])))
             elif r < 0.30:
                 out.append(("sleep", rng.choice([0, 1, 1, 2, 3, 5])))
             elif r < 0.40:
@@ -92,7 +116,8 @@ def gen_program(rng: random.Random, max_depth: int = 3) -> list[Any]:
                 sid = next(counter)
                 kind = rng.choice(["move_on", "move_on", "timeout", "open"])
                 d = INF if kind == "open" else rng.choice([0, 1, 2, 3, 4, 6])
-                out.append(("scope", sid, kind, d, block(depth + 1, active + [sid], in_shield)))
+                body = block(depth + 1, active + [sid], in_shield)
+                out.append(("scope", sid, kind, d, body, "raises") if rng.random() < 0.15 else ("scope", sid, kind, d, body))
             elif depth < max_depth and not in_shield:
                 out.append(("shield", block(depth + 1, active, True)))
             else:
@@ -117,6 +142,7 @@ async def execute(ast: list[Any], ext: int) -> list[dict[str, Any]]:
     t0 = loop.time()
     events: list[dict[str, Any]] = []
     scopes: dict[int, Any] = {}
+    exited: set[int] = set()
 
     def tick() -> int:
         return int(round((loop.time() - t0) / TICK))
@@ -147,6 +173,37 @@ async def execute(ast: list[Any], ext: int) -> list[dict[str, Any]]:
                 log("shield_in")
                 await backend.cancel_shielded_coro_yield()
                 log("shield_out")
+            elif st[0] == "failwait":
+                log("shield_in")
+                fut = loop.create_future()
+                loop.call_later(st[1] * TICK, fut.set_exception, ConnectionResetError(104, "scripted failure of the awaited operation"))
+
+                async def wait_for_failure(f: Any = fut) -> None:
+                    await f
+
+                try:
+                    await backend.ignore_cancellation(wait_for_failure())
+                except ConnectionResetError:
+                    pass
+                log("shield_out")
+            elif st[0] == "startc":
+                target, k, n = st[1], st[2], st[3]
+
+                def fire(left: int, target: int = target) -> None:
+                    if left > 0:
+                        loop.call_soon(fire, left - 1)
+                    elif target not in exited:
+                        scopes[target].cancel()
+
+                async def started_child(k: int = k) -> None:
+                    log("mark", k)
+
+                loop.call_soon(fire, n)
+                async with backend.create_task_group() as tg:
+                    await tg.start(started_child)
+                    log("mark", k + 500)  # start() returned
+                for _ in range(3):
+                    await backend.coro_yield()
             elif st[0] == "join":
 
                 async def child(k: int = st[1], d: int = st[2]) -> None:
@@ -156,7 +213,8 @@ async def execute(ast: list[Any], ext: int) -> list[dict[str, Any]]:
                 async with backend.create_task_group() as tg:
                     tg.start_soon(child)
             elif st[0] == "scope":
-                _, sid, kind, d, body = st
+                sid, kind, d, body = st[1:5]
+                raises = len(st) > 5
                 if kind == "move_on":
                     cm = backend.move_on_after(d * TICK)
                 elif kind == "timeout":
@@ -166,9 +224,17 @@ async def execute(ast: list[Any], ext: int) -> list[dict[str, Any]]:
                 log("enter", sid)
                 scope = None
                 try:
-                    with cm as scope:
-                        scopes[sid] = scope
-                        await run_block(body)
+                    try:
+                        with cm as scope:
+                            scopes[sid] = scope
+                            await run_block(body)
+                            if raises:
+                                raise ValueError("the body fails")
+                    finally:
+                        exited.add(sid)
+                except ValueError:
+                    log("exit", sid, bool(scope.cancelled_caught()), bool(scope.cancel_called()), "ValueError")
+                    continue
                 except TimeoutError:
                     log("exit", sid, bool(scope.cancelled_caught()), bool(scope.cancel_called()), "TimeoutError")
                     continue
@@ -203,7 +269,9 @@ def ast_str(ast: list[Any]) -> str:
         parts = []
         for st in block:
             if st[0] == "scope":
-                parts.append(f"{st[2]}#{st[1]}({'inf' if st[3] >= INF else st[3]}){{{go(st[4])}}}")
+                parts.append(f"{st[2]}#{st[1]}({'inf' if st[3] >= INF else st[3]}){{{go(st[4])}{'; raise' if len(st) > 5 else ''}}}")
+            elif st[0] == "failwait":
+                parts.append(f"shield{{wait({st[1]}) fails}}")
             elif st[0] == "shield":
                 parts.append(f"shield{{{go(st[1])}}}")
             elif st[0] == "resched":
@@ -212,6 +280,8 @@ def ast_str(ast: list[Any]) -> str:
                 parts.append("cancel_shielded_yield")
             elif st[0] == "join":
                 parts.append(f"group{{child: sleep({st[2]}); mark({st[1]})}}")
+            elif st[0] == "startc":
+                parts.append(f"group{{start(child: mark({st[2]}))}} with #{st[1]}.cancel() {st[3]} iterations later")
             else:
                 parts.append(f"{st[0]}({st[1]})")
         return "; ".join(parts)
@@ -225,7 +295,7 @@ def shape(ast: list[Any]) -> set[str]:
 
     def go(block: list[Any], in_shield: bool, in_scope: bool) -> None:
         for st in block:
-            if st[0] == "cyield":
+            if st[0] in ("cyield", "failwait"):
                 feats.add("shield")
                 if in_scope:
                     feats.add("shield_in_scope")
@@ -262,6 +332,10 @@ def _small_programs() -> list[tuple[list[Any], int]]:
         [("resched", 1, 4), ("sleep", 3)],
         [("resched", 1, 0), ("sleep", 1)],
         [("join", 5, 1), ("sleep", 1)],
+        [("startc", 1, 5, 0), ("mark", 6)],
+        [("startc", 1, 5, 1), ("mark", 6)],
+        [("startc", 1, 5, 2), ("mark", 6)],
+        [("shield", [("startc", 1, 5, 1), ("mark", 6)]), ("sleep", 0), ("mark", 7)],
         [("join", 5, 3), ("mark", 6)],
         [("shield", [("join", 5, 3)]), ("sleep", 1)],
     ]
@@ -385,6 +459,8 @@ def run(chk: Check) -> None:
             "uses_cancel_or_resched": bool(feats & {"cancel", "resched"}),
             # the history is fine up to the moment the external cancellation was requested
             "rejected_after_external_cancel": bool(ext < INF and failing is not None and failing["t"] >= ext),
+            # F8 / F8b need a scope's own cancellation to compete with the external one
+            "a_scope_was_cancelled": any((e["ev"] == "exit" and e["cc"]) or e["ev"] == "cancel" for e in evs),
         }
         chk.violation(
             sig,
